@@ -223,6 +223,11 @@ pub enum Op {
     /// the NEXT mutating op runs while every slot of LMDB's reader table is taken
     /// (read transactions held open through the public API): read_txn() fails inside it
     Starve,
+    /// the NEXT store / removal runs under a file size limit (RLIMIT_FSIZE, the kernel's own
+    /// "no more room": ftruncate and write beyond the limit fail with EFBIG); 0 = at the current
+    /// length of event.map, 1 = at the current length of data.mdb, 2 = 8 KiB, 3 = the larger of
+    /// the two lengths
+    Fsize(u8),
 }
 
 impl Op {
@@ -254,10 +259,11 @@ impl Op {
             Op::Crash(_) => "crash",
             Op::Fail(_) => "fail",
             Op::Starve => "starve",
+            Op::Fsize(_) => "fsize",
         }
     }
     pub fn is_modifier(&self) -> bool {
-        matches!(self, Op::Crash(_) | Op::Fail(_) | Op::Starve)
+        matches!(self, Op::Crash(_) | Op::Fail(_) | Op::Starve | Op::Fsize(_))
     }
 }
 
@@ -550,6 +556,7 @@ impl Op {
             Op::Crash(k) => format!("crash k={k}"),
             Op::Fail(k) => format!("fail k={k}"),
             Op::Starve => "starve".into(),
+            Op::Fsize(m) => format!("fsize mode={m}"),
         }
     }
 
@@ -584,6 +591,7 @@ impl Op {
             "crash" => Op::Crash(kv.get("k")?.parse().map_err(e)?),
             "fail" => Op::Fail(kv.get("k")?.parse().map_err(e)?),
             "starve" => Op::Starve,
+            "fsize" => Op::Fsize(kv.get("mode")?.parse().map_err(e)?),
             x => return Err(format!("unknown op {x}")),
         })
     }
